@@ -36,6 +36,7 @@ import (
 	"github.com/cenkalti/backoff"
 	"github.com/uber/kraken/utils/httputil"
 
+	"verif/checks/c34/vtime"
 	"verif/evid"
 	_ "verif/quiet"
 )
@@ -76,6 +77,61 @@ type Case struct {
 //   "X"        read the whole request body, then drop the connection without answering
 //   "X@k"      read k bytes of the request body, then drop the connection
 // beyond the script the server answers "200e" and marks the run as overrun.
+//
+// A status answer (either part) may carry a response header the client could
+// interpret, written "<answer>~<h>" (see respHeader):
+//   ra0 ra1 ra120 ra-1   Retry-After: 0 / 1 / 120 / -1        (delay-seconds)
+//   raPast raFuture      Retry-After: an HTTP date in 2015 / in 2999
+//   raBad                Retry-After: soon                     (neither form)
+//   close                Connection: close
+
+// splitSym cuts an answer symbol into the answer proper and its response-header decoration.
+func splitSym(sym string) (base, hdr string) {
+	if i := strings.IndexByte(sym, '~'); i >= 0 {
+		return sym[:i], sym[i+1:]
+	}
+	return sym, ""
+}
+
+var (
+	datePast   = time.Date(2015, 1, 1, 0, 0, 0, 0, time.UTC).Format(http.TimeFormat)
+	dateFuture = time.Date(2999, 1, 1, 0, 0, 0, 0, time.UTC).Format(http.TimeFormat)
+)
+
+// respHeader is the response header a decoration stands for.
+func respHeader(hdr string) (key, val string) {
+	switch hdr {
+	case "":
+		return "", ""
+	case "ra0", "ra1", "ra120", "ra-1":
+		return "Retry-After", hdr[2:]
+	case "raPast":
+		return "Retry-After", datePast
+	case "raFuture":
+		return "Retry-After", dateFuture
+	case "raBad":
+		return "Retry-After", "soon"
+	case "close":
+		return "Connection", "close"
+	}
+	panic("bad response-header decoration " + hdr)
+}
+
+// hdrClass names the kind of response header of an answer (fingerprint classes).
+func hdrClass(sym string) string {
+	_, h := splitSym(sym)
+	switch {
+	case h == "":
+		return ""
+	case h == "close":
+		return "Connection: close"
+	case h == "raBad":
+		return "an unparsable Retry-After"
+	case strings.HasPrefix(h, "ra"):
+		return "Retry-After"
+	}
+	return h
+}
 
 // Attempt is one request as received by the server.
 type Attempt struct {
@@ -90,7 +146,7 @@ type Attempt struct {
 	BodySHA   string      `json:"body_sha"`
 	BodyOK    bool        `json:"body_complete"` // body (or the prefix the server chose to read) equals the original
 	ReadErr   string      `json:"read_err,omitempty"`
-	WantedLen int         `json:"wanted_len"` // how many body bytes the server tried to read (-1: all)
+	WantedLen int         `json:"wanted_len"`             // how many body bytes the server tried to read (-1: all)
 	Stale     string      `json:"stale_writer,omitempty"` // model transport: what the previous attempt's write loop did to ITS body between that attempt's return and the end of this one
 }
 
@@ -240,6 +296,10 @@ func (w *worker) handle(rw http.ResponseWriter, r *http.Request) {
 	if rerr != nil || strings.HasPrefix(sym, "X") {
 		drop(rw)
 		return
+	}
+	sym, hdr := splitSym(sym)
+	if k, v := respHeader(hdr); k != "" {
+		rw.Header().Set(k, v)
 	}
 	code, _ := strconv.Atoi(sym[:3])
 	if strings.HasSuffix(sym, "b") {
@@ -650,6 +710,7 @@ func (w *worker) exec(c Case) (*Obs, error) {
 //                            R  when the next RoundTrip starts (after Send prepared the retry)
 //                            M  after the next attempt has read the first byte of its body
 //                          (never, if Send makes no further attempt: closed at teardown)
+//   "<code>~<h>"           a status answer carrying a response header (see respHeader)
 // beyond the script the transport answers "200" and marks the run as overrun.
 
 type staleWriter struct {
@@ -665,7 +726,7 @@ type modelRT struct {
 	note    string // stale-writer actions since the previous attempt returned
 }
 
-var reModelSym = regexp.MustCompile(`^(E|[0-9]{3})(?:@([0-9]+)\+([0-9]+|\*)([BRM]))?$`)
+var reModelSym = regexp.MustCompile(`^(E|[0-9]{3})(?:@([0-9]+)\+([0-9]+|\*)([BRM]))?(?:~([a-zA-Z0-9-]+))?$`)
 
 func (m *modelRT) runStale(at byte) {
 	s := m.pending
@@ -785,8 +846,13 @@ func (m *modelRT) RoundTrip(req *http.Request) (*http.Response, error) {
 		return nil, errors.New("model transport: connection reset by peer")
 	}
 	code, _ := strconv.Atoi(g[1])
-	return &http.Response{StatusCode: code, Status: fmt.Sprintf("%d %s", code, http.StatusText(code)), Proto: "HTTP/1.1", ProtoMajor: 1, ProtoMinor: 1,
-		Header: http.Header{}, Body: http.NoBody, Request: req}, nil
+	resp := &http.Response{StatusCode: code, Status: fmt.Sprintf("%d %s", code, http.StatusText(code)), Proto: "HTTP/1.1", ProtoMajor: 1, ProtoMinor: 1,
+		Header: http.Header{}, Body: http.NoBody, Request: req}
+	if k, v := respHeader(g[5]); k != "" {
+		resp.Header.Set(k, v)
+		resp.Close = k == "Connection" // what net/http's Transport reports for "Connection: close"
+	}
+	return resp, nil
 }
 
 // execModel runs one execution of the real Send over the real http.Client with the model transport.
@@ -889,6 +955,14 @@ func keys(h http.Header) []string {
 	return ks
 }
 
+// carried is the fingerprint class suffix for an answer with a response header.
+func carried(what, sym string) string {
+	if cl := hdrClass(sym); cl != "" {
+		return fmt.Sprintf(" [%s carried %s]", what, cl)
+	}
+	return ""
+}
+
 func check(c Case, o *Obs) []vio {
 	cfg := c.Config
 	var vs []vio
@@ -954,15 +1028,20 @@ func check(c Case, o *Obs) []vio {
 		}
 		code, _ := strconv.Atoi(a.Sym[:3])
 		if acc[code] && i+1 < len(o.Attempts) {
-			add(fmt.Sprintf("accepted status %d was retried", code), "attempt %d was answered %s (accepted), yet attempt %d followed", i, a.Sym, i+1)
+			add(fmt.Sprintf("accepted status %d was retried%s", code, carried("the accepted answer", a.Sym)), "attempt %d was answered %s (accepted), yet attempt %d followed", i, a.Sym, i+1)
 		}
 	}
 	// clause 4: retrying stops when the backoff is exhausted
+	// (class: what the answer to the last allowed attempt carried, when requests and attempts correspond one to one)
+	lastAllowed := ""
+	if len(o.RoundTrips) > maxRT && len(o.Attempts) == len(o.RoundTrips) {
+		lastAllowed = carried("the answer to the last allowed attempt", o.Attempts[maxRT-1].Sym)
+	}
 	if len(o.RoundTrips) > maxRT {
-		add("more attempts than the backoff allows", "%d attempts by Send, backoff allows 1+%d", len(o.RoundTrips), maxRT-1)
+		add("more attempts than the backoff allows"+lastAllowed, "%d attempts by Send, backoff allows 1+%d; answers %v", len(o.RoundTrips), maxRT-1, c.Script)
 	}
 	if o.RTAfterStop {
-		add("attempt made after the backoff returned Stop", "backoff answers %v, %d attempts", o.Backoff, len(o.RoundTrips))
+		add("attempt made after the backoff returned Stop"+lastAllowed, "backoff answers %v, %d attempts; answers %v", o.Backoff, len(o.RoundTrips), c.Script)
 	}
 	return vs
 }
@@ -970,7 +1049,52 @@ func check(c Case, o *Obs) []vio {
 // ---------------------------------------------------------------------------
 // enumeration
 
-func alphabet(cfg Config, rich bool) []string {
+// Response-header decorations per header level (see respHeader) and the status answers they are put on.
+//
+//	level 1: {503, 200} x {ra0, ra1, raPast} + 429~raFuture + 503~close                       (8 symbols)
+//	level 2: {429, 503, rejected (400 / model: 404), 200} x {ra0, ra1, raPast, raFuture, raBad, close}  (24)
+//	level 3: level 2's codes + 404 (+ 502, 504 with the rich alphabet; 503 also with a response body)
+//	         x {ra0, ra1, ra120, ra-1, raPast, raFuture, raBad, close}
+var hdrDecos = map[int][]string{
+	2: {"ra0", "ra1", "raPast", "raFuture", "raBad", "close"},
+	3: {"ra0", "ra1", "ra120", "ra-1", "raPast", "raFuture", "raBad", "close"},
+}
+
+func decorate(al []string, level int, codes []string) []string {
+	if level == 1 {
+		sfx := codes[0][3:] // "e" (real transport) or "" (model)
+		for _, c := range []string{"503", "200"} {
+			for _, h := range []string{"ra0", "ra1", "raPast"} {
+				al = append(al, c+sfx+"~"+h)
+			}
+		}
+		return append(al, "429"+sfx+"~raFuture", "503"+sfx+"~close")
+	}
+	for _, c := range codes {
+		for _, h := range hdrDecos[level] {
+			al = append(al, c+"~"+h)
+		}
+	}
+	return al
+}
+
+// alphabet: the server answers of part A. hdr = 0: answers without response headers (X@k: every k<N for
+// N<=4). hdr = 1, 2: the header block of the quick tier -- a reduced set of plain answers (no mid-body
+// drops: the response-header dimension does not touch the request body) plus the decorated answers of that
+// header level. hdr = 3: the full plain alphabet plus the decorated answers of level 3.
+func alphabet(cfg Config, rich bool, hdr int) []string {
+	switch hdr {
+	case 1:
+		return decorate([]string{"X", "503e", "200e"}, 1, []string{"503e"})
+	case 2:
+		return decorate([]string{"X", "503e", "200e", "404e"}, 2, []string{"429e", "503e", "400e", "200e"})
+	case 3:
+		codes := []string{"429e", "503e", "503b", "400e", "200e", "404e"}
+		if rich {
+			codes = append(codes, "502e", "504e")
+		}
+		return decorate(alphabet(cfg, rich, 0), 3, codes)
+	}
 	al := []string{"X"}
 	if cfg.Body != "none" && cfg.Size > 0 {
 		n := cfg.Size
@@ -1001,7 +1125,17 @@ func alphabet(cfg Config, rich bool) []string {
 //	level 1: early answers at k in {0,1,N}, j in {1,*}, p in {R,M}            (4+24 symbols for N=3)
 //	level 2: early answers at k in {0,1,N}, j in {0,1,*}, p in {B,R,M}        (4+54)
 //	level 3: early answers at every k in 0..N, j in {0,1,*}, p in {B,R,M}, four more status codes (8+72 for N=3)
-func modelAlphabet(cfg Config, level int) []string {
+//
+// hdr > 0 adds the status answers carrying a response header of that header level (see hdrDecos).
+func modelAlphabet(cfg Config, level, hdr int) []string {
+	switch hdr {
+	case 1:
+		return decorate(modelAlphabet(cfg, level, 0), 1, []string{"503"})
+	case 2:
+		return decorate(modelAlphabet(cfg, level, 0), 2, []string{"429", "503", "404", "200"})
+	case 3:
+		return decorate(modelAlphabet(cfg, level, 0), 3, []string{"429", "502", "503", "504", "500", "404", "200"})
+	}
 	al := []string{"200", "404", "503", "E"}
 	if level >= 3 {
 		al = append(al, "429", "502", "504", "500")
@@ -1057,17 +1191,22 @@ func (s *stats) add(k string, d int64) {
 	s.mu.Unlock()
 }
 
+var timeCapHit atomic.Bool // part of the space was not run: the per-part vacuity counters may legitimately be zero
+
 const depthSlack = 3 // server-side requests may exceed Send's attempts (net/http replays idempotent requests on a dead pooled connection)
 
 // explore enumerates the answer tree of one config depth-first.
 func (w *worker) explore(run *evid.Run, st *stats, it item, deadline time.Time) error {
 	cfg, rich := it.cfg, it.rich
-	al := alphabet(cfg, rich)
+	al := alphabet(cfg, rich, it.hdr)
 	model := cfg.Conn == "model"
 	execKey := fmt.Sprintf("executions retries=%d rich_alphabet=%v", cfg.Retries, rich)
 	if model {
-		al = modelAlphabet(cfg, it.level)
+		al = modelAlphabet(cfg, it.level, it.hdr)
 		execKey = fmt.Sprintf("model_executions retries=%d alphabet_level=%d", cfg.Retries, it.level)
+	}
+	if it.hdr > 0 {
+		execKey += fmt.Sprintf(" header_level=%d", it.hdr)
 	}
 	maxRT := 1
 	if cfg.Retries > 0 {
@@ -1077,6 +1216,7 @@ func (w *worker) explore(run *evid.Run, st *stats, it item, deadline time.Time) 
 	rec = func(prefix []string) error {
 		if time.Now().After(deadline) {
 			run.NotExhaustive("time cap hit")
+			timeCapHit.Store(true)
 			return nil
 		}
 		c := Case{Config: cfg, Script: append([]string(nil), prefix...)}
@@ -1168,6 +1308,47 @@ func report(run *evid.Run, st *stats, c Case, o *Obs, vs []vio) {
 	}
 	if o.SendErr == "" {
 		st.add("cases_send_ok", 1)
+	}
+	// response headers: which of the situations the header dimension is about actually occurred
+	part := "real_transport"
+	if c.Config.Conn == "model" {
+		part = "model_transport"
+	}
+	acc := c.Config.accepted()
+	hdrSeen, hdrRetried, hdrAccepted := false, false, false
+	for i, a := range o.Attempts {
+		if hdrClass(a.Sym) == "" {
+			continue
+		}
+		hdrSeen = true
+		if code, _ := strconv.Atoi(a.Sym[:3]); acc[code] {
+			hdrAccepted = true
+		} else if i+1 < len(o.Attempts) {
+			hdrRetried = true
+		}
+	}
+	if hdrSeen {
+		st.add("cases_with_response_header "+part, 1)
+	}
+	if hdrRetried {
+		st.add("cases_retry_after_answer_with_response_header "+part, 1)
+	}
+	if hdrAccepted {
+		st.add("cases_accepted_answer_with_response_header "+part, 1)
+	}
+	if n := len(o.Attempts); n > 0 && n == len(o.RoundTrips) {
+		last := o.Attempts[n-1]
+		code, _ := strconv.Atoi(last.Sym[:min(3, len(last.Sym))])
+		retryable := code == 429 || code == 502 || code == 503 || code == 504 || (code == 400 && c.Config.Variant == "extra400")
+		if hdrClass(last.Sym) == "Retry-After" && retryable && !acc[code] {
+			// the collision of interest: the backoff is exhausted (or there is none) and the retryable answer carries a parsable hint
+			switch {
+			case c.Config.Retries < 0:
+				st.add("cases_no_SendRetry_and_retryable_answer_with_Retry-After "+part, 1)
+			case len(o.Backoff) > 0 && o.Backoff[len(o.Backoff)-1] == -1:
+				st.add("cases_backoff_exhausted_on_retryable_answer_with_Retry-After "+part, 1)
+			}
+		}
 	}
 	if c.Config.Conn == "model" {
 		st.add("model_complete_cases", 1)
@@ -1275,6 +1456,7 @@ type item struct {
 	cfg   Config
 	rich  bool
 	level int    // model transport: alphabet level
+	hdr   int    // response-header level of the alphabet (0: no response headers)
 	first string // explore only the subtree below this first answer
 }
 
@@ -1315,19 +1497,34 @@ func product(out *[]item, rich bool, methods map[string][]bs, conns []string, re
 // modelProduct: full product for the model-transport part; trees of configurations
 // with split=true are cut into one work item per first answer.
 func modelProduct(out *[]item, level int, split bool, methods map[string][]bs, retries []int) {
+	modelHdrProduct(out, level, 0, split, methods, retries)
+}
+
+// modelHdrProduct: modelProduct with the response-header level hdr.
+func modelHdrProduct(out *[]item, level, hdr int, split bool, methods map[string][]bs, retries []int) {
 	var tmp []item
 	product(&tmp, level >= 3, methods, []string{"model"}, retries, []string{"default"})
 	for _, it := range tmp {
-		it.level = level
+		it.level, it.hdr = level, hdr
 		if !split {
 			*out = append(*out, it)
 			continue
 		}
-		for _, sym := range modelAlphabet(it.cfg, level) {
+		for _, sym := range modelAlphabet(it.cfg, level, hdr) {
 			p := it
 			p.first = sym
 			*out = append(*out, p)
 		}
+	}
+}
+
+// hdrProduct: product for part A with the response-header level hdr.
+func hdrProduct(out *[]item, rich bool, hdr int, methods map[string][]bs, conns []string, retries []int, vars []string) {
+	var tmp []item
+	product(&tmp, rich, methods, conns, retries, vars)
+	for _, it := range tmp {
+		it.hdr = hdr
+		*out = append(*out, it)
 	}
 }
 
@@ -1369,6 +1566,14 @@ func configs(thorough bool) []item {
 		deepKinds := append([]string{"bytes.Reader", "strings.Reader@1", "bytes.Buffer@1", "os.File", "readseeker", "io.Reader"}, seekKinds...)
 		modelProduct(&out, 1, true, map[string][]bs{"POST": bodiesOf(deepKinds, []int{3})[1:]}, []int{2})
 		modelProduct(&out, 0, false, map[string][]bs{"POST": {{"bytes.Reader", 3}, {"bytes.Buffer", 3}, {"section@1", 3}, {"file-noclose", 3}, {"rsc@1", 3}}}, []int{3})
+		// response headers the client may interpret (header block): real transport ...
+		hb := map[string][]bs{"POST": {{"none", 0}, {"bytes.Reader", 3}, {"io.Reader", 3}}, "GET": {{"none", 0}}}
+		hdrProduct(&out, false, 2, hb, []string{"fresh", "keepalive"}, []int{-1, 0, 1}, variants)
+		hdrProduct(&out, false, 1, map[string][]bs{"POST": {{"none", 0}, {"bytes.Reader", 3}}}, []string{"fresh", "keepalive"}, []int{2}, []string{"default"})
+		hdrProduct(&out, false, 1, map[string][]bs{"POST": {{"bytes.Reader", 3}}}, []string{"fresh"}, []int{2}, []string{"accept503", "extra400"})
+		// ... and model transport (early answers of level 0)
+		modelHdrProduct(&out, 0, 2, false, map[string][]bs{"POST": bodiesOf(mk, []int{0, 3})}, []int{-1, 0, 1})
+		modelHdrProduct(&out, 0, 1, false, map[string][]bs{"POST": {{"bytes.Reader", 3}, {"bytes.Buffer@1", 3}, {"io.Reader", 3}, {"section@1", 3}}}, []int{2})
 	} else {
 		kinds = append(kinds, seekKinds...)
 		conns := []string{"fresh", "keepalive", "warm"}
@@ -1418,6 +1623,21 @@ func configs(thorough bool) []item {
 			"PUT": {{"bytes.Reader", 3}, {"readseeker@1", 3}},
 		}, []int{2})
 		modelProduct(&out, 0, false, map[string][]bs{"POST": bodiesOf(mk, []int{3})[1:]}, []int{3})
+		// response headers the client may interpret (header block): real transport ...
+		hb := map[string][]bs{
+			"POST": {{"none", 0}, {"bytes.Reader", 3}, {"bytes.Buffer", 3}, {"io.Reader", 3}, {"os.File", 3}, {"readseeker", 3}},
+			"GET":  {{"none", 0}, {"bytes.Reader", 3}},
+			"PUT":  {{"strings.Reader@1", 3}},
+		}
+		hdrProduct(&out, true, 3, hb, conns, []int{-1, 0}, variants)
+		hdrProduct(&out, false, 3, hb, two, []int{1}, variants)
+		hdrProduct(&out, false, 2, map[string][]bs{"POST": {{"none", 0}, {"bytes.Reader", 3}, {"io.Reader", 3}}, "GET": {{"none", 0}}}, two, []int{2}, variants)
+		hdrProduct(&out, false, 1, map[string][]bs{"POST": {{"none", 0}, {"bytes.Reader", 3}}}, two, []int{3}, []string{"default"})
+		// ... and model transport
+		modelHdrProduct(&out, 3, 3, false, map[string][]bs{"POST": bodiesOf(mk, []int{0, 3}), "GET": {{"none", 0}, {"bytes.Reader", 3}}}, []int{-1, 0})
+		modelHdrProduct(&out, 1, 3, false, map[string][]bs{"POST": bodiesOf(mk, []int{0, 3}), "GET": {{"none", 0}, {"bytes.Reader", 3}}}, []int{1})
+		modelHdrProduct(&out, 0, 2, true, map[string][]bs{"POST": bodiesOf(mk, []int{3})}, []int{2})
+		modelHdrProduct(&out, 0, 1, true, map[string][]bs{"POST": {{"bytes.Reader", 3}, {"bytes.Buffer@1", 3}, {"io.Reader", 3}, {"section@1", 3}}}, []int{3})
 	}
 	if thorough {
 		// cut the big real-transport trees into one work item per first answer (load balance at the tail)
@@ -1427,7 +1647,7 @@ func configs(thorough bool) []item {
 				split = append(split, it)
 				continue
 			}
-			for _, sym := range alphabet(it.cfg, it.rich) {
+			for _, sym := range alphabet(it.cfg, it.rich, it.hdr) {
 				p := it
 				p.first = sym
 				split = append(split, p)
@@ -1597,8 +1817,20 @@ func main() {
 	for k, v := range st.counters {
 		run.Set(k, v)
 	}
-	if run.NViolations() == 0 {
-		for _, k := range []string{"cases_with_retry", "cases_success_after_retry", "cases_backoff_exhausted", "retries_with_complete_nonempty_body",
+	nSleep, posSleep, sumSleep, maxSleep := vtime.Stats()
+	run.Set("delays_requested_by_httputil_not_slept", nSleep)
+	run.Set("delays_requested_by_httputil_longer_than_zero", posSleep)
+	run.Set("delays_requested_by_httputil_sum", sumSleep.String())
+	run.Set("delays_requested_by_httputil_longest", maxSleep.String())
+	if nSleep == 0 {
+		run.Fatal(errors.New("vacuous: httputil.Send never asked the check's clock for a delay (overlay not applied?)"))
+	}
+	if run.NViolations() == 0 && !timeCapHit.Load() {
+		for _, k := range []string{"cases_retry_after_answer_with_response_header real_transport", "cases_retry_after_answer_with_response_header model_transport",
+			"cases_accepted_answer_with_response_header real_transport", "cases_accepted_answer_with_response_header model_transport",
+			"cases_no_SendRetry_and_retryable_answer_with_Retry-After real_transport", "cases_no_SendRetry_and_retryable_answer_with_Retry-After model_transport",
+			"cases_backoff_exhausted_on_retryable_answer_with_Retry-After real_transport", "cases_backoff_exhausted_on_retryable_answer_with_Retry-After model_transport",
+			"cases_with_retry", "cases_success_after_retry", "cases_backoff_exhausted", "retries_with_complete_nonempty_body",
 			"cases_with_retry_body_handed_over_at_offset", "model_cases_retry_while_transport_held_previous_body", "model_cases_complete_nonempty_retry_while_transport_held_previous_body"} {
 			if st.counters[k] == 0 {
 				run.Fatal(errors.New("vacuous: counter " + k + " is zero"))
